@@ -958,6 +958,31 @@ def r_nb_threads(ctx):
             if isinstance(dest, tuple) and dest[0] == 'index' and M.is_field(dest[1], 'upper_bounds', 'Critical') and body.fn_name == 'notify_node_finished':
                 markers.append((body, pt, val))
     ctx.floor('R04.7', 'writers', None, n_writers, 2, 'writers of nb_threads (constructor + with_nb_threads)')
+    # R04.10 — at least one worker: with nb_threads = 0 the spawn loop starts nobody, the root stays on the fringe and maximize() still
+    # reports is_exact (abort_proof is None): the search is declared complete with an open sub-problem. Every writer of nb_threads
+    # therefore stores a value whose lower bound is >= 1 (`n.max(1)`, `clamp(1, _)`, `NonZeroUsize::get`, `if n == 0 {1} else {n}`, or a
+    # write reachable only under `n > 0` / `n != 0`, e.g. behind an assert) — lower-bound interval domain of R13.c
+    from .width_rules import lower_bound
+    def _atoms_on_all_paths(body_, point_):
+        out_ = []
+        for bbk in body_.live_blocks():
+            if body_.term(bbk)['k'] != 'switch':
+                continue
+            for (tb, lab) in body_.succ(bbk):
+                if point_ not in body_.reach([(0, 0)], cut_edges=[(bbk, lab)]):
+                    out_ += list(M.lit_atoms(M.edge_literal(body_, bbk, lab)))
+        return out_
+    for body in F.bodies.values():
+        if 'solver::parallel' not in body.name:
+            continue
+        sites = [((bb, i), M.simplify_field(body.origin.rvalue(s_['rv'], (bb, i)), 'nb_threads', None)) for (bb, i, s_) in aggr_assigns(body, 'parallel::ParallelSolver')]
+        sites += [((bb, i), body.origin.rvalue(s_['rv'], (bb, i))) for (bb, i, s_) in body.assigns(
+            lambda s_: s_['place']['p'] and isinstance(s_['place']['p'][-1], dict) and s_['place']['p'][-1].get('name') == 'nb_threads' and (s_['place']['p'][-1].get('adt') or '').endswith('ParallelSolver'))]
+        for (pt, n) in sites:
+            lbv = lower_bound(n, _atoms_on_all_paths(body, pt))
+            ctx.check(lbv >= 1, 'R04.10', 'at-least-one-worker/' + (body.fn_name or '?'), body, body.loc(*pt),
+                      '%s stores a number of worker threads >= 1 (%s)' % (body.fn_name, M.show(n)[:80]),
+                      '%s can store nb_threads = 0 (%s has lower bound %d): maximize() then spawns no worker, leaves the root on the fringe and still reports is_exact = true / no solution' % (body.fn_name, M.show(n)[:80], lbv))
     vals = set(m[2] for m in markers)
     one = len(vals) == 1 and is_min_const(list(vals)[0])
     if markers:
@@ -1022,6 +1047,44 @@ def r_abort(ctx):
             good = bool(proof_w) and all(isinstance(v, tuple) and v[0] == 'aggr' and v[2] == 'Some' and M.contains(v[3][0][1], lambda x: M.is_call(x, 'process_one_node')) for (pt, d, v) in proof_w)
         ctx.check(good, 'R05.2', tag + '/abort-sets-proof', asb, asb.loc(0), 'abort_search records abort_proof = Some(reason) on every path',
                   'abort_search does not set abort_proof := Some(reason) on every path')
+        # the proof of an abort is withdrawn (abort_proof := None outside the constructor: a solver that can be asked to maximize again)
+        # only together with a FULL reset of what the aborted search left behind: the abort discards the open sub-problems, so every
+        # "explored" mark still in the cache speaks about a search whose remainder was thrown away — a later run that trusts those marks
+        # skips the root and proves optimality of the interrupted incumbent. Accepted: the abort handler clears the cache and the fringe on
+        # every path (today), or the function that withdraws the proof does.
+        modkey = 'solver::sequential' if tag == 'seq' else 'solver::parallel'
+        def _clears_all(body_, starts_=None):
+            starts_ = starts_ or [(0, 0)]
+            for what_ in ('Cache::clear', 'Fringe::clear'):
+                pts_ = [body_.term_point(bb_) for u_ in [body_] for (bb_, t_) in u_.calls_to('clear') if (t_.get('callee') or '').endswith(what_) or what_.split('::')[0].lower() in M.show(u_.origin.operand(t_['args'][0], u_.term_point(bb_))).lower()]
+                if not pts_:
+                    return False
+                r_ = body_.reach(starts_, avoid=pts_)
+                if any(p_ in r_ for p_ in ret_points(body_)):
+                    return False
+            return True
+        # the abort handler: abort_search, or (written / inlined in place) what follows the write abort_proof := Some(..)
+        if asbs:
+            handler_ok = _clears_all(asb)
+        else:
+            somes_ = [pt for (pt, d, v) in proof_w if isinstance(v, tuple) and v[0] == 'aggr' and v[2] == 'Some']
+            handler_ok = bool(somes_) and _clears_all(loopb, [q for pt in somes_ for q in loopb.after(pt)])
+        withdrawn = []
+        for wb_ in F.bodies.values():
+            if modkey not in wb_.name:
+                continue
+            for (pt, d, v, s) in writes(wb_):
+                if solver_field(d, 'abort_proof') and isinstance(v, tuple) and v and ((v[0] == 'aggr' and v[2] == 'None') or M.is_call(v, 'take')):
+                    withdrawn.append((wb_, pt))
+        if not withdrawn:
+            ctx.ok('R05.2', tag + '/proof-withdrawn-only-with-a-full-reset', asb, asb.loc(0), 'abort_proof is never reset after construction: an aborted solver never claims exactness again')
+        for (wb_, pt) in withdrawn:
+            ctx.analysed_bodies.add(wb_.name)
+            good = handler_ok or _clears_all(wb_)
+            ctx.check(good, 'R05.2', tag + '/proof-withdrawn-only-with-a-full-reset', wb_, wb_.loc(*pt),
+                      '%s withdraws abort_proof, and the abort handler (or %s itself) clears the cache and the fringe on every path' % (wb_.fn_name, wb_.fn_name),
+                      '%s resets abort_proof to None, but neither the abort handler nor %s clears BOTH the cache and the fringe on every path: the next maximize() meets "explored" marks '
+                      'of a search whose open sub-problems were discarded, skips them and reports the interrupted incumbent as proven optimal' % (wb_.fn_name, wb_.fn_name))
     # R05.3 (parallel): the collapse best_ub := best_lb must be guarded by abort_proof.is_none() under the same lock
     gw = ctx.body(PAR, 'get_workload')
     ctx.check(_ub_collapse_guarded(ctx, gw), 'R05.3', 'par/complete-guarded-by-abort', gw, gw.loc(0),
